@@ -23,8 +23,19 @@ def main():
         if rc != 0:
             print(n, "PATCH DOES NOT APPLY", out); continue
         t0 = time.time()
+        # the owning property's check first; `checks.txt` (optional) names neighbouring properties whose statement the change
+        # also (or rather) violates — the first check that reports a failing input is recorded
+        pids = [pid]
+        cf = os.path.join(d, "checks.txt")
+        if os.path.exists(cf):
+            pids += [x for x in open(cf).read().split() if x != pid]
         try:
-            rc, out = sh([os.path.join(ROOT, "check"), pid, "--tier", "quick"], cwd=ROOT)
+            for q in pids:
+                rc, out = sh([os.path.join(ROOT, "check"), q, "--tier", "quick"], cwd=ROOT)
+                m = re.search(r"VIOLATION property=(\S+) replay=(\S+)( no-failing-input-found)?", out)
+                if m and not m.group(3):
+                    pid = q
+                    break
         finally:
             sh(["git", "-C", REPO, "checkout", "--", "."]); sh(["git", "-C", REPO, "clean", "-fdq"])
         m = re.search(r"VIOLATION property=(\S+) replay=(\S+)( no-failing-input-found)?", out)
